@@ -844,3 +844,75 @@ def miscounted_collection_loops(fn):
                 visit(b)
     visit(fn.body)
     return out
+
+
+
+def guards_contradicting_their_message(fn):
+    """[(if node, why)]: 'if <test>: raise E("... must be a 1D array")' / '("... inconsistent sizes")' whose test holds for exactly the inputs
+    the message calls valid: ndim compared for equality with the documented dimension (or for inequality with another one), shapes compared
+    for equality under an 'inconsistent' message.  The message is the author's statement of the rule; the test is its implementation."""
+    import re
+    out = []
+    for st in ast.walk(fn):
+        if not (isinstance(st, ast.If) and len(st.body) == 1 and isinstance(st.body[0], ast.Raise) and not st.orelse and st.body[0].exc is not None):
+            continue
+        msg = ' '.join(c.value for c in ast.walk(st.body[0].exc) if isinstance(c, ast.Constant) and isinstance(c.value, str))
+        t = st.test
+        neg = False
+        while isinstance(t, ast.UnaryOp) and isinstance(t.op, ast.Not):
+            t, neg = t.operand, not neg
+        if not (isinstance(t, ast.Compare) and len(t.ops) == 1 and isinstance(t.ops[0], (ast.Eq, ast.NotEq))):
+            continue
+        equal = isinstance(t.ops[0], ast.Eq) != neg
+        l, r = t.left, t.comparators[0]
+        m = re.search(r'must be an? (\d)D array', msg)
+        if m and isinstance(l, ast.Attribute) and l.attr == 'ndim' and isinstance(r, ast.Constant) and isinstance(r.value, int):
+            k = int(m.group(1))
+            if equal and r.value == k:
+                out.append((st, "raises '%s' exactly when the array has %d dimension(s)" % (msg[:50], k)))
+            elif not equal and r.value != k:
+                out.append((st, "raises '%s' unless the array has %d dimensions" % (msg[:50], r.value)))
+        elif 'inconsistent' in msg and equal and all(any(isinstance(x, ast.Attribute) and x.attr == 'shape' for x in ast.walk(side)) for side in (l, r)):
+            out.append((st, "raises '%s' exactly when the shapes agree" % msg[:60]))
+    return out
+
+
+
+def unbound_after_handler(fn):
+    """[(try node, name)]: a name first assigned inside a try body, an except handler that falls through (no raise / return / continue / break
+    at its end) without assigning it, and a read of the name after the try statement: when the handled exception occurs before the
+    assignment (the assignment is usually the statement that raises) the read raises UnboundLocalError."""
+    out = []
+    params = {a.arg for a in fn.args.posonlyargs + fn.args.args + fn.args.kwonlyargs}
+    if fn.args.vararg:
+        params.add(fn.args.vararg.arg)
+    if fn.args.kwarg:
+        params.add(fn.args.kwarg.arg)
+
+    def stores(nodes):
+        return {n.id for b in nodes for n in ast.walk(b) if isinstance(n, ast.Name) and isinstance(n.ctx, ast.Store)}
+
+    for tr in [n for n in ast.walk(fn) if isinstance(n, ast.Try)]:
+        if tr.finalbody or tr.orelse:
+            continue
+        inside = stores(tr.body) - params
+        end = getattr(tr, 'end_lineno', None)
+        if not inside or end is None:
+            continue
+        earlier = {n.id for n in ast.walk(fn) if isinstance(n, ast.Name) and isinstance(n.ctx, ast.Store) and n.lineno < tr.lineno}
+        # inside a loop an assignment of a previous iteration also counts as earlier
+        for loop in [l for l in ast.walk(fn) if isinstance(l, (ast.For, ast.While)) and any(x is tr for x in ast.walk(l))]:
+            earlier |= stores([loop]) - stores([tr])
+        for h in tr.handlers:
+            last = h.body[-1] if h.body else None
+            if isinstance(last, (ast.Raise, ast.Return, ast.Continue, ast.Break)):
+                continue
+            if any(isinstance(x, (ast.Raise, ast.Return, ast.Continue, ast.Break)) for x in ast.walk(h)):
+                continue                      # conditional exits: not decided here
+            missing = inside - stores(h.body) - earlier
+            for name in sorted(missing):
+                later = sorted([n for n in ast.walk(fn) if isinstance(n, ast.Name) and n.id == name and n.lineno > end],
+                               key=lambda n: (n.lineno, 0 if isinstance(n.ctx, ast.Store) else 1, n.col_offset))
+                if later and isinstance(later[0].ctx, ast.Load):
+                    out.append((tr, name, later[0]))
+    return out
